@@ -219,6 +219,9 @@ def isZero : Num → Bool
 def isFloat : Num → Bool
   | .dbl _ => true | .flt _ => true | _ => false
 
+def isFlt : Num → Bool | .flt _ => true | _ => false
+def isDbl : Num → Bool | .dbl _ => true | _ => false
+
 def dblOf : Num → Option Dbl
   | .dbl d => some d | .flt d => some d | _ => none
 
@@ -282,6 +285,17 @@ def signOf : Num → Option Int      -- none = NaN
     | .inf n => some (if n then -1 else 1)
     | .fin q => some (if q > 0 then 1 else -1)
 
+/-- `promoted_float(op1, op2, value)`: an xs:float (`Float(value)`) unless an operand is an xs:double -/
+def promF (a b : Num) (d : Dbl) : Num :=
+  if (isFlt a || isFlt b) && !isDbl a && !isDbl b then .flt (mkFloat d) else .dbl d
+
+/-- the float value of an operand that is returned by `a mod ±INF` (`float(op1)`) -/
+def asDblOf (R : Rounding) : Num → Dbl
+  | .int n => ofInt R n
+  | .dec n s => ofDec R n s
+  | .dbl d => d
+  | .flt d => d
+
 def opDiv (R : Rounding) (v : Ver) (a b : Num) : Except Err Num :=
   let (a, b) := coerce R a b
   if !isZero b then
@@ -290,14 +304,14 @@ def opDiv (R : Rounding) (v : Ver) (a b : Num) : Except Err Num :=
     | _, _ => if mixedOverflow R a b then throw .FOAR0002 else pure (liftF R (ftruediv R) a b)
   else if v != .v10 && !isFloat a && !isFloat b then throw .FOAR0001
   else match signOf a with
-    | none => pure (.dbl .nan)
-    | some 0 => pure (.dbl .nan)
-    | some s => pure (.dbl (.inf ((s < 0) != zeroIsNeg b)))
+    | none => pure (promF a b .nan)
+    | some 0 => pure (promF a b .nan)
+    | some s => pure (promF a b (.inf ((s < 0) != zeroIsNeg b)))
 
 /-- `mod` (`_xpath1_operators.py`, after the fixes) -/
 def opMod (R : Rounding) (v : Ver) (a b : Num) : Except Err Num :=
   let (a, b) := coerce R a b
-  if isZero b && (isFloat a || isFloat b) then pure (.dbl .nan)
+  if isZero b && (isFloat a || isFloat b) then pure (promF a b .nan)
   else
     match a, b with
     | .int x, .int y => if y = 0 then throw .FOAR0001 else pure (.int (modInt x y))
@@ -305,7 +319,7 @@ def opMod (R : Rounding) (v : Ver) (a b : Num) : Except Err Num :=
       -- `isinstance(op2, float) and math.isinf(op2) and not math.isinf(op1) and op1 != 0`
       if numIsInf b && intOvf R a then throw .FOAR0002
       else if numIsInf b && !numIsInf a && !isZero a then
-        (if v ≠ .v10 then pure a else pure (.dbl .nan))
+        pure (promF a b (asDblOf R a))      -- all parser versions (the 1.0 switch was removed)
       else
       match asDec a, asDec b with
       | some (x, sx), some (y, sy) =>
@@ -318,15 +332,12 @@ def opMod (R : Rounding) (v : Ver) (a b : Num) : Except Err Num :=
         -- result = op1 % op2;  NaN is returned as is, otherwise type(result)(math.fmod(op1, op2))
         pure (liftF R (fun x y => if pyFloatModIsNan x y then .nan else fmod x y) a b)
 
-/-- Python `x // y` on floats then the `int(result)` / `int(result)+1` correction of `idiv`;
-`x` finite, `y` non-zero and not NaN -/
+/-- `0 if math.isinf(op2) else math.trunc(Fraction(float(op1)) / Fraction(float(op2)))`: the exact truncated
+quotient of the two doubles; `x` finite, `y` non-zero and not NaN -/
 def idivFloat : Dbl → Dbl → Int
   | .zero _, _ => 0
-  | .fin x, .inf n => if decide (x < 0) = n then 0 else (-1 + 1)   -- -1.0, inexact, corrected
-  | .fin x, .fin y =>
-    let q := x / y
-    let result := q.floor
-    if result ≥ 0 ∨ (q.floor : Rat) = q then result else result + 1
+  | .fin _, .inf _ => 0
+  | .fin x, .fin y => FOArith.trunc (x / y)
   | _, _ => 0               -- not reached
 
 /-- `idiv` (`_xpath2_operators.py`, after the fixes) -/
@@ -422,6 +433,9 @@ def argNeg : Num → Bool
   | .dbl d => FOArith.Dbl.isNeg d
   | .flt d => FOArith.Dbl.isNeg d
 
+/-- digits of the local decimal context in which fn:round / round-half-to-even quantize -/
+def roundCtxDigits : Nat := 2000
+
 /-- decimal result with explicit scale `p` (kept as n/10^p when p ≥ 0) -/
 def decOfUnscaled (neg : Bool) (c : Nat) (p : Int) : Num :=
   let n : Int := if neg then -(c : Int) else c
@@ -435,7 +449,7 @@ def roundCore (R : Rounding) (a : Num) (p : Int) : Num :=
   | some x =>
     let neg := argNeg a
     let c := quantMag (if x > 0 then .halfUp else .halfDown) x p
-    if numDigits c > 28 then
+    if numDigits c > roundCtxDigits then
       let i := pyRoundInt x
       match a with
       | .int n => .int n                        -- round(int) is the int
@@ -466,7 +480,7 @@ def fnRhe (R : Rounding) (a : Num) (p : Int) : Num :=
     match a with
     | .int n => if 0 ≤ p then .int n else .int (unscale neg c p).floor
     | .dec _ _ =>
-      if numDigits c > 28 then
+      if numDigits c > roundCtxDigits then
         -- InvalidOperation → Decimal.from_float(round(float(item), precision))
         match rnd R.r64 x with
         | .fin y =>
@@ -482,7 +496,7 @@ def fnRhe (R : Rounding) (a : Num) (p : Int) : Num :=
 `Decimal.from_float(round(float(item), precision))`)? -/
 def rheDecOverflow (a : Num) (p : Int) : Bool :=
   match a, exactOf a with
-  | .dec _ _, some x => numDigits (quantMag .halfEven x p) > 28
+  | .dec _ _, some x => numDigits (quantMag .halfEven x p) > roundCtxDigits
   | _, _ => false
 
 /-! ### the abstraction from Python objects to XDM values, and the dispatch by operator -/
@@ -523,7 +537,7 @@ literals are NOT converted by the binary operators (finding F06v) but are by flo
 
 /-- characters matched by the implementation's white-space class `[ \\t\\n\\r]` (helpers.Patterns.whitespaces;
 XML white space only since the fix "whiteSpace normalisation … treats only XML white space") -/
-def isPySpace (c : Char) : Bool := [9, 10, 13, 32].contains c.toNat
+def isPySpace (c : Char) : Bool := FOArith.isXmlSpace c
 
 /-- `([Ee][+-]?[0-9]+)?$` on the rest after the mantissa: the exponent -/
 def scanExp (cs : List Char) : Option Int :=
@@ -539,23 +553,41 @@ def scanExp (cs : List Char) : Option Int :=
       else some (if neg then -(FOArith.digitsVal ds : Int) else (FOArith.digitsVal ds : Int))
     else none
 
-/-- `XPathToken.number_value(str)` -/
-def pyNumber (R : Rounding) (cs : List Char) : Dbl :=
+/-- the optional sign `[+-]?` of the xs:double lexical pattern -/
+def splitSign : List Char → Bool × List Char
+  | '-' :: t => (true, t)
+  | '+' :: t => (false, t)
+  | t => (false, t)
+
+/-- `float(value)` after `numeric_literal` matched: mantissa, then `([Ee][+-]?[0-9]+)?$` -/
+def getDoubleBody (R : Rounding) (neg : Bool) : Option (List Char × List Char × List Char) → Dbl
+  | some (i, f, rest) =>
+    (match scanExp rest with
+     | some e => FOArith.signedToDbl R.r64 neg (FOArith.decimalToRat i f e)
+     | none => .nan)
+  | none => .nan
+
+/-- `helpers.get_double(str)`: collapse white space, `INF`/`-INF`/`NaN`, the xs:double lexical pattern,
+Python `float(str)` -/
+def getDouble (R : Rounding) (cs : List Char) : Dbl :=
   let s := FOArith.stripWith isPySpace cs
   if s = ['I', 'N', 'F'] then .inf false
   else if s = ['-', 'I', 'N', 'F'] then .inf true
   else if s = ['N', 'a', 'N'] then .nan
-  else
-    let (neg, body) := match s with
-      | '-' :: t => (true, t)
-      | '+' :: t => (false, t)
-      | t => (false, t)
-    match FOArith.scanMantissa body with
-    | some (i, f, rest) =>
-      match scanExp rest with
-      | some e => FOArith.signedToDbl R.r64 neg (FOArith.decimalToRat i f e)
-      | none => .nan
-    | none => .nan
+  else getDoubleBody R (splitSign s).1 (FOArith.scanMantissa (splitSign s).2)
+
+def matchesBody : Option (List Char × List Char × List Char) → Bool
+  | some (_, _, []) => true
+  | _ => false
+
+/-- `XPATH1_NUMBER_PATTERN.match(str)`: `[ \t\n\r]*-?(digits(.digits*)?|.digits)[ \t\n\r]*\Z` -/
+def matches10 (cs : List Char) : Bool :=
+  matchesBody (FOArith.scanMantissa (FOArith.splitMinus (FOArith.stripWith isPySpace cs)).2)
+
+/-- `XPathToken.number_value(str)` of the 1.0 parser: NaN unless the XPath 1.0 pattern matches, then
+`get_double` -/
+def pyNumber (R : Rounding) (cs : List Char) : Dbl :=
+  if matches10 cs then getDouble R cs else .nan
 
 /-- an operand of the 1.0 parser -/
 inductive Opnd | num (n : Num) | str (cs : List Char)
@@ -594,13 +626,6 @@ def isExactOpnd : Opnd → Bool
   | .num (.dec _ _) => true
   | _ => false
 
-/-- F06s: the implementation's string→number conversion accepts the xs:double lexical space
-(exponents, a leading '+', INF, Unicode white space), XPath 1.0 number() only `-? Number` -/
-def trigF06s (R : Rounding) (a : Opnd) : Bool :=
-  match a with
-  | .str cs => !(pyNumber R cs == FOArith.number10 R cs)
-  | _ => false
-
 /-! ### call sites evaluated repeatedly (`for $a in …, $b in … return $a op $b`, one parsed token re-evaluated
 with other variables, a function item called again): the model of a call site is a function of its
 arguments only — no state is carried on the token between evaluations -/
@@ -620,8 +645,6 @@ def forPairs (as bs : List Num) : List (Num × Num) := as.flatMap fun a => bs.ma
 /-! ### trigger predicates of the known findings and of the excluded regions
 (decidable, computed from the input only; hypotheses of the `_partial` theorems) -/
 
-def isFlt : Num → Bool | .flt _ => true | _ => false
-def isDbl : Num → Bool | .dbl _ => true | _ => false
 
 /-- the promoted type of the operation is xs:float -/
 def floatTyped (a b : Num) : Bool := (isFlt a || isFlt b) && !isDbl a && !isDbl b
@@ -673,27 +696,6 @@ def trigF06c_un (op : UnOp) (a : Num) : Bool :=
      | some x => f32safe (FOArith.exactUn op x)
      | none => true))
 
-/-- F06t: the zero-divisor branch of `div`/`mod` returns a plain `float` NaN/INF, and
-`a mod ±INF` returns `a` itself, so the result is not of the promoted type -/
-def trigF06t (R : Rounding) (v : Ver) (op : BinOp) (a b : Num) : Bool :=
-  let ft := floatTyped a b
-  let (a, b) := coerce R a b          -- the code tests the operands after `get_operands`
-  match op with
-  | .div => isZero b && ft
-  | .mod =>
-    (isZero b && ft) ||
-    (v != .v10 && numIsInf b && !numIsInf a && !isZero a &&
-      (match a, b with
-       | .int _, _ => true
-       | .flt _, .dbl _ => true
-       | _, _ => false))
-  | _ => false
-
-/-- F06x: in XPath 1.0 `finite mod ±INF` gives NaN instead of the dividend -/
-def trigF06x (R : Rounding) (v : Ver) (op : BinOp) (a b : Num) : Bool :=
-  let (a, b) := coerce R a b
-  v == .v10 && op == .mod && numIsInf b && !numIsInf a && !numIsNan a && !isZero a
-
 /-- the exact decimal result needs more than 28 significant digits -/
 def trigIdef_bin (op : BinOp) (a b : Num) : Bool :=
   match asDec a, asDec b with
@@ -730,7 +732,7 @@ def trigIdef_un (op : UnOp) (a : Num) : Bool :=
 `round(arg)` / float rounding -/
 def trigF06p (op : UnOp) (a : Num) : Bool :=
   match op, exactOf a with
-  | .round p, some x => numDigits (quantMag (if x > 0 then .halfUp else .halfDown) x p) > 28
+  | .round p, some x => numDigits (quantMag (if x > 0 then .halfUp else .halfDown) x p) > roundCtxDigits
   | .rhe p, some _ => rheDecOverflow a p
   | _, _ => false
 
@@ -739,16 +741,6 @@ cast would give ±INF (F&O 4.2 allows either on overflow) -/
 def trigOvf (R : Rounding) (a b : Num) : Bool :=
   let (a, b) := coerce R a b
   mixedOverflow R a b
-
-/-- Python's float floor division is exact only for quotients below 2^51 -/
-def trigBig (R : Rounding) (op : BinOp) (a b : Num) : Bool :=
-  op == .idiv && (isFloat a || isFloat b) &&
-  (let (a, b) := coerce R a b
-   let fx := match a with | .int n => ofInt R n | .dbl d => d | .flt d => d | _ => .nan
-   let fy := match b with | .int n => ofInt R n | .dbl d => d | .flt d => d | _ => .nan
-   match fx, fy with
-   | .fin x, .fin y => decide ((2 : Rat) ^ (51 : Nat) ≤ (if x / y < 0 then -(x / y) else x / y))
-   | _, _ => false)
 
 /-- F06v: the XPath 1.0 parser computes integer and decimal literals exactly (int / Decimal) instead of
 as IEEE doubles: the value differs from XPath 1.0 arithmetic (e.g. `1 div 3`, `0.1 + 0.2`, `5 mod 0`) -/
